@@ -25,6 +25,51 @@ THE SOFTWARE.
 
 # {{{ fuse_two_phases
 
+def _get_loop_variables(statements):
+    return {
+            ident
+            for stmt in statements
+            for ident, _, _ in getattr(stmt, "loops", ())}
+
+
+def _disambiguate_loop_variables(statements1, statements2,
+        should_disambiguate_name):
+    """Rename, in *statements2*, the names that clash with *statements1*
+    where the clash involves a loop variable.
+
+    :func:`pymbolic.imperative.transform.disambiguate_identifiers` only
+    knows the identifiers that statements read or write. A loop variable
+    which its own statement does not mention is neither, yet it is set
+    while the loop runs and unset afterwards, so it must not coincide with
+    a per-step variable of the other method.
+    """
+    from pymbolic.imperative.analysis import get_all_used_identifiers
+
+    loop_vars1 = _get_loop_variables(statements1)
+    loop_vars2 = _get_loop_variables(statements2)
+
+    ids1 = set(get_all_used_identifiers(statements1)) | loop_vars1
+    ids2 = set(get_all_used_identifiers(statements2)) | loop_vars2
+
+    clashes = sorted(
+            name for name in ids1 & ids2 & (loop_vars1 | loop_vars2)
+            if should_disambiguate_name(name))
+
+    if not clashes:
+        return statements2
+
+    from pytools import UniqueNameGenerator
+    vng = UniqueNameGenerator(ids1 | ids2)
+
+    from pymbolic import var
+    subst = {name: var(vng(name)) for name in clashes}
+
+    from pymbolic.mapper.substitutor import SubstitutionMapper, make_subst_func
+    subst_map = SubstitutionMapper(make_subst_func(subst))
+
+    return [stmt.map_expressions(subst_map) for stmt in statements2]
+
+
 def fuse_two_phases(phase_name, phase1, phase2, should_disambiguate_name=None):
     from dagrt.language import ExecutionPhase
 
@@ -44,7 +89,10 @@ def fuse_two_phases(phase_name, phase1, phase2, should_disambiguate_name=None):
 
         from pymbolic.imperative.transform import disambiguate_and_fuse
         new_statements, _, old_2_id_to_new_2_id = disambiguate_and_fuse(
-                phase1.statements, phase2.statements,
+                phase1.statements,
+                _disambiguate_loop_variables(
+                    phase1.statements, phase2.statements,
+                    should_disambiguate_name),
                 should_disambiguate_name)
 
         return ExecutionPhase(
